@@ -24,10 +24,16 @@ import FontcProofs.MarksKind
 import FontcProofs.MarksCover
 import FontcProofs.MarksValue
 
-deriving instance DecidableEq for Except
-
 namespace Fontc.C10
 open Fontc Fontc.Marks Fontc.VarModel
+
+/-- (only used by the `decide` examples below) -/
+local instance : DecidableEq (Except BadAnchor Kind) := fun a b =>
+  match a, b with
+  | .ok x, .ok y => if h : x = y then isTrue (by rw [h]) else isFalse (fun e => h (Except.ok.inj e))
+  | .error x, .error y => if h : x = y then isTrue (by rw [h]) else isFalse (fun e => h (Except.error.inj e))
+  | .ok _, .error _ => isFalse (fun e => by cases e)
+  | .error _, .ok _ => isFalse (fun e => by cases e)
 
 /-! ## 1. Anchor names -/
 
@@ -127,11 +133,11 @@ example : ((allLookups exGlyphs).filter (·.carries ⟨.lig, "top".toList, 3, 2,
   (every_pair_covered exGlyphs exGlyphs_gids exGlyphs_kinds exGlyphs_lig _
     (by rw [exGlyphs_pairs]; decide)).1
 /-- … and the model really emits three lookups here (`bottom` has no mark, so no lookup). -/
-example : (allLookups exGlyphs).map (fun l => (l.kind, String.ofList l.name, l.marks, l.bases)) =
-    ([ (LKind.base, "top", [(2, 20)], [(1, [some 10])]),
-       (LKind.lig, "top", [(2, 20)], [(3, [some 30, some 31])]),
-       (LKind.mkmk, "top", [(2, 20)], [(2, [some 21])]) ] :
-      List (LKind × String × List (Nat × Nat) × List (Nat × List (Option Nat)))) := by decide
+example : (allLookups exGlyphs).map (fun l => (l.kind, l.name)) =
+    [(LKind.base, "top".toList), (LKind.lig, "top".toList), (LKind.mkmk, "top".toList)] := by decide +kernel
+example : (allLookups exGlyphs).map (·.marks) = [[(2, 20)], [(2, 20)], [(2, 20)]] := by decide +kernel
+example : (allLookups exGlyphs).map (·.bases) =
+    [[(1, [some 10])], [(3, [some 30, some 31])], [(2, [some 21])]] := by decide +kernel
 end Example
 
 /-! ## 3. Attachment -/
